@@ -1,9 +1,10 @@
 """C03 — Network measures equal their published definitions.
 
 proof  : lean/Pyunicorn/Properties/C03.lean (matrix formulas / kernel loops =
-         counts of the named sub-structures, Laplacian laws, efficiency and
-         closeness conventions, unit-weight n.s.i. relations, arithmetic width
-         of the cliquishness denominators)
+         counts of the named sub-structures, BFS = shortest walk length, Laplacian
+         laws, path-measure conventions, assortativity = Pearson, unit-weight
+         n.s.i. relations, arithmetic width of the cliquishness denominators,
+         translator tie translate/arith_C03.json)
 tie    : correspondence of the Lean model (lean/Pyunicorn/Model/Net*.lean) with
          the public methods of `Network` and with the Cython kernels called
          directly, on the same graphs: exact for integer outputs, |x - p/q| <=
@@ -610,6 +611,7 @@ def check_graph(ctx, run, A, directed, family, tier):
         fin = [orc.d[i][j] for i in range(n) for j in range(n) if i != j and orc.d[i][j] != INF]
         if fin:
             st, apl = call("average_path_length")
+            st_apl = st
             ctx.count("oracle:average_path_length")
             if st == "raise" or not close(apl, Fr(sum(fin), len(fin))):
                 ctx.fail(sig("average_path_length"), "average_path_length differs from the mean over connected pairs",
@@ -619,6 +621,8 @@ def check_graph(ctx, run, A, directed, family, tier):
             if st == "raise" or dia != max(fin):
                 ctx.fail(sig("diameter"), "diameter differs from the largest finite distance",
                          replay("diameter", max(fin), dia))
+            if st == "ok" and st_apl == "ok":
+                run.approx(f"upath {m}", [[float(apl)], [float(dia)]], ("upath", A, directed))
 
     # ---- coreness --------------------------------------------------------------------
     st, core = call("coreness")
@@ -665,6 +669,8 @@ def check_graph(ctx, run, A, directed, family, tier):
         elif any(not close(x, e) for x, e in zip(fl(got), expv)):
             ctx.fail(sig("local_vulnerability"), "local_vulnerability differs from (E - E_i)/E",
                      replay("local_vulnerability", [str(e) for e in expv], fl(got)))
+        if st == "ok" and n <= 8:
+            run.approx(f"vuln {m}", [fl(got)], ("vuln", A, directed))
 
     if directed:
         directed_extras(ctx, net, orc, A, sig, replay)
@@ -897,6 +903,299 @@ def weighted_checks(ctx, run, A, directed):
                           "expected": [str(e) for e in exp], "observed": g if g is not None else got})
 
 
+def rel_close(x, y, tol=1e-12):
+    x, y = float(x), float(y)
+    if math.isnan(x) or math.isnan(y):
+        return math.isnan(x) and math.isnan(y)
+    if math.isinf(x) or math.isinf(y):
+        return x == y
+    return abs(x - y) <= tol * max(abs(x), abs(y))
+
+
+def rel9(x, q):
+    """purely relative comparison (for values on a rescaled axis)"""
+    if q is None or q == INF:
+        return close(x, q)
+    x = float(x)
+    if math.isnan(x) or math.isinf(x):
+        return False
+    return abs(x - float(q)) <= 1e-9 * abs(float(q)) + 1e-300
+
+
+def weighted_floyd(A, W, n):
+    return floyd(n, [[(Fr(W[i][j]) if A[i][j] else None) for j in range(n)] for i in range(n)])
+
+
+def extended_checks(ctx, run, A, directed, tier):
+    """round 2: every constructor / array type for the same graph, public wrappers and non-default
+    arguments, multi-step histories on one object (including arrays the library keeps in its cache),
+    both float widths for caller arrays, exact power-of-two rescalings of link and node weights"""
+    import igraph
+    import scipy.sparse as sp
+    from pyunicorn.core.network import Network, NetworkError
+    rng = ctx.rng
+    n = A.shape[0]
+    orc = Oracle(A, directed)
+    feat = features(A, directed)
+    nodes = list(range(n))
+    ctx.count("extended:graphs")
+
+    def sig(kind, method, **kw):
+        s_ = {"kind": kind, "method": method, "directed": directed, "input_class": feat}
+        s_.update(kw)
+        return s_
+
+    def rp(method, expected, observed, **kw):
+        r_ = {"method": method, "directed": directed, "adjacency": A.tolist(),
+              "expected": expected, "observed": observed}
+        r_.update(kw)
+        return r_
+
+    def vec_ok(got, exp):
+        g = fl(got)
+        return len(g) == len(exp) and all(e is None or close(x, e) for x, e in zip(g, exp))
+
+    # ---- 1. the same graph through every constructor / array type ------------------------------
+    edges = [(i, j) for i in range(n) for j in range(n) if A[i, j] and (directed or i < j)]
+    ctors = {
+        "int64": lambda: Network(adjacency=np.array(A, dtype=np.int64), directed=directed, silence_level=3),
+        "bool": lambda: Network(adjacency=np.array(A, dtype=bool), directed=directed, silence_level=3),
+        "float64": lambda: Network(adjacency=np.array(A, dtype=np.float64), directed=directed, silence_level=3),
+        "float32": lambda: Network(adjacency=np.array(A, dtype=np.float32), directed=directed, silence_level=3),
+        "nested-list": lambda: Network(adjacency=A.tolist(), directed=directed, silence_level=3),
+        "csr": lambda: Network(adjacency=sp.csr_matrix(A), directed=directed, silence_level=3),
+        "fortran-order": lambda: Network(adjacency=np.asfortranarray(A), directed=directed, silence_level=3),
+        "copy": lambda: mk_network(A, directed).copy(),
+    }
+    if edges:   # edgeless edge lists / igraph graphs are C05's subject
+        ctors["edge_list"] = lambda: Network(edge_list=edges, n_nodes=n, directed=directed, silence_level=3)
+        ctors["igraph"] = lambda: Network.FromIGraph(
+            igraph.Graph.Adjacency(A.tolist(), mode="directed" if directed else "undirected"), silence_level=3)
+    for cname in rng.sample(sorted(ctors), 3):
+        st, net = quiet(ctors[cname])
+        ctx.count("ctor:" + cname)
+        if st != "ok":
+            continue   # construction itself is C05's subject
+        if net.directed != directed or not np.array_equal(np.asarray(net.adjacency), A):
+            continue
+        tests = [("degree", orc.deg, ()), ("path_lengths", [x for r_ in orc.d for x in r_], ())]
+        if n <= 16:
+            tests.append(("betweenness", orc.betweenness(), ()))
+        if not directed:
+            tests.append(("local_clustering", orc.local_clustering(), ()))
+            tests.append(("local_cliquishness", orc.cliquishness(4), (4,)))
+        for meth, exp, args in tests:
+            st, got = quiet(getattr(net, meth), *args)
+            if st != "ok" or not vec_ok(got, exp):
+                ctx.fail(sig("ctor", meth, constructor=cname),
+                         f"{meth} of the network built via {cname} differs from its definition",
+                         rp(meth, [str(e) for e in exp], fl(got) if st == "ok" else got, constructor=cname))
+
+    net = mk_network(A, directed)
+
+    # ---- 2. wrappers and non-default arguments -----------------------------------------------------
+    if not directed:
+        ctx.count("wrapper:undirected")
+        if n <= 16:
+            st, got = quiet(net.edge_betweenness)
+            expL = orc.link_betweenness()
+            if st != "ok" or any(not close(got[i][j], expL[i][j]) for i in nodes for j in nodes):
+                ctx.fail(sig("api", "edge_betweenness"), "edge_betweenness differs from the shortest-path definition",
+                         rp("edge_betweenness", [[str(x) for x in r_] for r_ in expL],
+                            np.asarray(got).tolist() if st == "ok" else got))
+        st, got = quiet(net.local_cliquishness, 3)
+        if st != "ok" or not vec_ok(got, orc.local_clustering()):
+            ctx.fail(sig("api", "local_cliquishness", order=3),
+                     "local_cliquishness(3) is not the local clustering coefficient",
+                     rp("local_cliquishness", [str(e) for e in orc.local_clustering()],
+                        fl(got) if st == "ok" else got, order=3))
+        for order, err in ((0, "NetworkError"), (1, "NetworkError"), (2, "NetworkError"),
+                           (6, "NotImplementedError")):
+            st, got = quiet(net.local_cliquishness, order)
+            if st != "raise" or got != err:
+                ctx.fail(sig("api", "local_cliquishness", order=order),
+                         f"local_cliquishness({order}) is documented as undefined / not implemented",
+                         rp("local_cliquishness", "raise:" + err, str(got), order=order))
+        # higher-order transitivity: order * #K_order / #stars with `order` nodes
+        expt = orc.transitivity()
+        st, got = quiet(net.higher_order_transitivity, 3)
+        if st != "ok" or not close(got, expt):
+            ctx.fail(sig("api", "higher_order_transitivity", order=3),
+                     "higher_order_transitivity(3) is not the transitivity",
+                     rp("higher_order_transitivity", str(expt), got, order=3))
+        if n >= 4:
+            k4 = sum(1 for c in itertools.combinations(nodes, 4)
+                     if all(orc.A[x][y] for x, y in itertools.combinations(c, 2))) if n <= 24 else None
+            stars = sum(math.comb(k, 3) for k in orc.deg)
+            if k4 is not None:
+                exp4 = Fr(4 * k4, stars) if stars else Fr(0)
+                st, got = quiet(net.higher_order_transitivity, 4)
+                ctx.count("oracle:higher_order_transitivity")
+                if st != "ok" or not close(got, exp4):
+                    ctx.fail(sig("api", "higher_order_transitivity", order=4),
+                             "higher_order_transitivity(4) is not 4 * #K4 / #(stars with 4 nodes)",
+                             rp("higher_order_transitivity", str(exp4), got, order=4))
+        if n <= 16 and n:
+            # default arguments = all nodes; sources / targets given as arrays, ranges, tuples
+            exp2 = [2 * x for x in orc.betweenness()]
+            for label, kw in (("defaults", {}),
+                              ("ndarray", {"sources": np.arange(n), "targets": np.arange(n, dtype=np.int64)}),
+                              ("range", {"sources": range(n), "targets": range(n)})):
+                st, got = quiet(net.interregional_betweenness, **kw)
+                ctx.count("wrapper:interregional:" + label)
+                if st != "ok" or not vec_ok(got, exp2):
+                    ctx.fail(sig("api", "interregional_betweenness", arguments=label),
+                             f"interregional_betweenness with {label} for all nodes is not twice the betweenness",
+                             rp("interregional_betweenness", [str(e) for e in exp2],
+                                fl(got) if st == "ok" else got, arguments=label))
+            # n.s.i. wrappers with dyadic node weights of either float width against the Lean kernel model
+            scale = 2 ** rng.choice([-12, -3, 0, 0, 5, 20])
+            w = [Fr(rng.randrange(1, 17), 8) * scale for _ in nodes]
+            width = rng.choice([np.float32, np.float64])
+            netw = mk_network(A, False)
+            netw.node_weights = np.array([float(x) for x in w], dtype=width)
+            ctx.count(f"nodeweights:{width.__name__}")
+            S = sorted(rng.sample(nodes, rng.randrange(1, n + 1)))
+            T = sorted(rng.sample(nodes, rng.randrange(1, n + 1)))
+            src = [1 if v in S else 0 for v in nodes]
+            st, got = quiet(netw.nsi_interregional_betweenness, S, T)
+            if st == "ok":
+                run.approx(f"betw {enc_mat(A)} {enc_frs(w)} {enc_vec(src)} {enc_vec(T)}",
+                           [fl(got)], ("betw-wrapper-rel", A, directed))
+            st, got = quiet(netw.nsi_betweenness)
+            if st == "ok":
+                run.approx(f"betw {enc_mat(A)} {enc_frs(w)} {enc_vec([1] * n)} {enc_vec(nodes)}",
+                           [fl(got)], ("betw-default-rel", A, directed))
+            st, got = quiet(netw.nsi_local_clustering)
+            if st == "ok":
+                run.approx(f"nsiclust {enc_mat(A)} {enc_frs(w)}", [fl(got)],
+                           ("nsiclust-scaled-rel", A, directed))
+            # n.s.i. degree scales with the weights
+            st, got = quiet(netw.nsi_degree)
+            expd = [sum(w[j] for j in nodes if A[i, j]) + w[i] for i in nodes]
+            if st != "ok" or any(not rel_close(x, e, 1e-6 if width is np.float32 else 1e-12)
+                                 for x, e in zip(fl(got), expd)):
+                ctx.fail(sig("api", "nsi_degree", node_weights="dyadic*2^k"),
+                         "nsi_degree differs from the weight of the closed neighbourhood",
+                         rp("nsi_degree", [str(e) for e in expd], fl(got) if st == "ok" else got,
+                            node_weights=[str(x) for x in w]))
+    # diameter: non-default arguments
+    fin = [orc.d[i][j] for i in nodes for j in nodes if i != j and orc.d[i][j] != INF]
+    if fin:
+        st, got = quiet(net.diameter, only_connected=False)
+        conn = orc.connected()
+        ctx.count("wrapper:diameter")
+        # unconnected: the definition gives inf; the docstring promises N (the convention of older igraph)
+        if st != "ok" or (got != max(fin) if conn else got not in (INF, n)):
+            ctx.fail(sig("api", "diameter", arguments="only_connected=False"),
+                     "diameter(only_connected=False) is not the diameter (connected) / inf or N (unconnected)",
+                     rp("diameter", max(fin) if conn else "inf or N", got))
+        U = np.maximum(np.asarray(A), np.asarray(A).T)
+        du = Oracle(U, False).d
+        finu = [du[i][j] for i in nodes for j in nodes if i != j and du[i][j] != INF]
+        st, got = quiet(net.diameter, directed=False)
+        if st != "ok" or got != max(finu):
+            ctx.fail(sig("api", "diameter", arguments="directed=False"),
+                     "diameter(directed=False) is not the largest finite distance ignoring link directions",
+                     rp("diameter", max(finu), got))
+    st, got = quiet(net.path_lengths, "topological")
+    if st != "ok" or [[float(x) for x in r_] for r_ in orc.d] != np.asarray(got).tolist():
+        ctx.fail(sig("api", "path_lengths", key="topological"),
+                 "path_lengths('topological') differs from the shortest-path lengths",
+                 rp("path_lengths", orc.d, np.asarray(got).tolist() if st == "ok" else got))
+
+    # ---- 3. link weights: float widths, power-of-two rescaling, histories on one object ----------------
+    if not A.any() or n < 2:
+        return
+    k = rng.choice([-40, -9, 0, 0, 7, 40])
+    scale = Fr(2) ** k
+    Wq = [[(Fr(rng.randrange(1, 33), 4) * scale if A[i, j] else Fr(0)) for j in nodes] for i in nodes]
+    if not directed:
+        Wq = [[Wq[min(i, j)][max(i, j)] for j in nodes] for i in nodes]
+    width = rng.choice([np.float32, np.float64])
+    W = np.array([[float(x) for x in r_] for r_ in Wq], dtype=width)
+    Wcopy = W.copy()
+    ctx.count(f"linkweights:{width.__name__}:2^{k}")
+    net = mk_network(A, directed)
+    net.set_link_attribute("len", W)
+    dw = weighted_floyd(orc.A, Wq, n)
+    finw = [dw[i][j] for i in nodes for j in nodes if i != j and dw[i][j] != INF]
+    e_pl = [[float(x) for x in r_] for r_ in dw]
+    e_apl = Fr(sum(finw), len(finw))
+    e_ge = sum(Fr(1) / x for x in finw) / (n * (n - 1))
+    e_cc = []
+    for i in nodes:
+        s_ = sum((Fr(n) if x == INF else x) for x in dw[i])
+        e_cc.append(Fr(n - 1) / s_ if s_ else Fr(0))
+    e_str = [sum(Wq[i]) for i in nodes]
+    e_upl = [[float(x) for x in r_] for r_ in orc.d]
+    e_uge = orc.efficiency()
+    e_ncl = [(Fr(n, sum(orc.d[i]) + 1) if all(x != INF for x in orc.d[i]) else Fr(0)) for i in nodes]
+
+    def chk_mat(exp):
+        return lambda got: np.asarray(got).tolist() == exp
+
+    def chk_vec(exp, tol=1e-12):
+        return lambda got: len(fl(got)) == len(exp) and all(rel_close(x, e, tol) for x, e in zip(fl(got), exp))
+
+    pool = {
+        "path_lengths(len)": (lambda: net.path_lengths("len"), chk_mat(e_pl), e_pl),
+        "average_path_length(len)": (lambda: net.average_path_length("len"), chk_vec([e_apl]), e_apl),
+        "global_efficiency(len)": (lambda: net.global_efficiency("len"), chk_vec([e_ge]), e_ge),
+        "closeness(len)": (lambda: net.closeness("len"), chk_vec(e_cc), e_cc),
+        "outdegree(len)": (lambda: net.outdegree("len"), chk_vec(e_str), e_str),
+        "path_lengths()": (lambda: net.path_lengths(), chk_mat(e_upl), e_upl),
+        "global_efficiency()": (lambda: net.global_efficiency(), chk_vec([e_uge]), e_uge),
+        "nsi_closeness()": (lambda: net.nsi_closeness(), chk_vec(e_ncl), e_ncl),
+        "average_path_length()": (lambda: net.average_path_length(),
+                                  chk_vec([Fr(sum(fin), len(fin))]), None),
+    }
+    if 3 <= n <= 7:
+        # weighted vulnerability by node removal
+        expv, ok_removal = [], True
+        for i in nodes:
+            keep = [v for v in nodes if v != i]
+            subA = [[orc.A[x][y] for y in keep] for x in keep]
+            if not any(any(r_) for r_ in subA):
+                ok_removal = False   # known finding C03-F1 (edgeless FromIGraph)
+                break
+            dsub = weighted_floyd(subA, [[Wq[x][y] for y in keep] for x in keep], n - 1)
+            gsub = sum(Fr(1) / dsub[x][y] for x in range(n - 1) for y in range(n - 1)
+                       if x != y and dsub[x][y] != INF) / ((n - 1) * (n - 2))
+            expv.append((e_ge - gsub) / e_ge)
+        if ok_removal:
+            pool["local_vulnerability(len)"] = (lambda: net.local_vulnerability("len"), chk_vec(expv, 1e-9), expv)
+    names = sorted(pool)
+    history = [rng.choice(names) for _ in range(10)] + ["path_lengths(len)", "path_lengths()"]
+    held = {}
+    done = []
+    for step in history:
+        f, ok, exp = pool[step]
+        st, got = quiet(f)
+        done.append(step)
+        ctx.count("history:step")
+        if st != "ok" or not ok(got):
+            ctx.fail(sig("history", step, after="other-path-measures-on-the-same-object"
+                         if len(done) > 1 else "fresh-object"),
+                     f"{step} differs from its definition after the calls {done[:-1]} on the same object",
+                     {"adjacency": A.tolist(), "weights": [[str(x) for x in r_] for r_ in Wq], "float": width.__name__,
+                      "history": done, "expected": str(exp)[:2000],
+                      "observed": (np.asarray(got).tolist() if st == "ok" else got)})
+            break
+        if step.startswith("path_lengths") and st == "ok":
+            held[step] = got
+    # the arrays handed out earlier (held by the library's cache) still hold the distances
+    for step, arr in held.items():
+        if not pool[step][1](arr):
+            ctx.fail(sig("history", step, after="array-returned-earlier"),
+                     f"the array returned by {step} was changed by later calls {done}",
+                     {"adjacency": A.tolist(), "weights": [[str(x) for x in r_] for r_ in Wq], "history": done,
+                      "observed": np.asarray(arr).tolist()})
+    if not np.array_equal(W, Wcopy):
+        ctx.fail(sig("history", "set_link_attribute", after="caller-array"),
+                 "the caller's link-weight array was modified", {"adjacency": A.tolist()})
+
+
 def spectral_checks(ctx, A):
     """connected undirected graphs: spectral and random-walk measures against dense
     linear algebra (correspondence-only measures; float tolerance 1e-6)"""
@@ -1013,7 +1312,10 @@ def run(ctx):
     ctx.rule = ("graphs: all labelled undirected graphs on <= %d nodes, directed on <= %d nodes, random "
                 "G(n,p) with 6..40 nodes over p in 0.03..0.97, structured families (paths, stars, cliques, "
                 "cycles, bipartite, disjoint unions, isolated nodes, equal-length multipaths, wheel) and "
-                "permuted copies; every graph goes through every applicable measure; distinct = distinct "
+                "permuted copies; every graph goes through every applicable measure; a subset additionally "
+                "through every constructor / array type, the public wrappers with non-default arguments, "
+                "float32/float64 weights rescaled by powers of two and 12-step call histories on one object; "
+                "distinct = distinct "
                 "(directed, adjacency); non-trivial = at least 3 nodes and one link"
                 % ((4, 3) if quick else (5, 4)))
     ctx.trusted = common.DEFAULT_TRUSTED + [
@@ -1060,6 +1362,11 @@ def run(ctx):
     csel = [g for g in graphs if not g[2] and g[1].shape[0] >= 3 and is_connected(g[1])]
     for fam, A, directed in (csel if not quick else rng.sample(csel, min(len(csel), 60))):
         spectral_checks(ctx, A)
+    # round 2: constructors / wrappers / histories / rescalings on a subset
+    esel = [g for g in graphs if g[1].shape[0] >= 2]
+    nx = 140 if quick else 1200
+    for fam, A, directed in (esel if len(esel) <= nx else rng.sample(esel, nx)):
+        extended_checks(ctx, run_, A, directed, ctx.tier)
     big_degree_kernels(ctx)
 
     # ---------------- correspondence with the Lean model --------------------------------
@@ -1079,7 +1386,8 @@ def run(ctx):
                 continue   # the implementation raised / not applicable: reported by the oracle part
             mrow = rowsm[ri] if ri < len(rowsm) else []
             ncmp += 1
-            if len(mrow) != len(irow) or any(not close(x, q) for x, q in zip(irow, mrow)):
+            cmp = rel9 if meta[0].endswith("-rel") else close
+            if len(mrow) != len(irow) or any(not cmp(x, q) for x, q in zip(irow, mrow)):
                 badl.append(f"{req[:300]} :: row {ri} model={[str(q) for q in mrow][:12]} impl={irow[:12]}")
     ctx.obligation(f"correspondence: Lean Net/NetBetw model == Network methods and kernels "
                    f"(rational outputs, tol 1e-9; {len(freqs)} requests, {ncmp} vectors)",
